@@ -17,6 +17,17 @@ CHECKS = {
         note='Trusted: TLC, the projection of asset.Instance equality onto (release, generation), virtualised time.sleep '
              'for the refresher; weights beyond the constants are sampled, not exhausted.',
         design='6/C17'),
+    'C11': dict(
+        technique='TLC exhaustive exploration of FlowGraph.tla (all call orders over fixed casts) with every generated call '
+                  'of every reachable graph executed on real flow objects; random call sequences validated by TraceFlowGraph.tla',
+        text='FlowGraph.tla fixes, for every declared graph and every public wiring call, the allowed outcome class and the '
+             'projected graph (placeholders resolved to the direct wiring). Every reachable graph within the constants is '
+             'rebuilt on real Worker/Future objects through a witness history and every call is tried from it; outcome class and '
+             'node.output / Worker.input / trained / derived are compared with TLC\'s values. Longer random sequences over the '
+             'same casts are recorded and validated step by step by TLC.',
+        note='Trusted: TLC, the projection through public attributes. Segment.copy / Trunk.extend are exercised through the '
+             'operator library in C03/C12. Placeholder-only cycles are not generated (property silent).',
+        design='6/C11'),
 }
 
 NOT_YET = {}
